@@ -61,7 +61,9 @@ func (f *vfC25Streamer) StreamSearch(ctx context.Context, q query.Q, opts *zoekt
 }
 
 // the counters: every int/int64/Duration field of zoekt.Stats except Duration (not summed by Stats.Add) and
-// FlushReason (sticky), enumerated by reflection so that a counter added to the struct is covered automatically
+// FlushReason (sticky), enumerated by reflection (struct order) so that a counter added to the struct is covered
+// automatically; prop.py compares this list with the fields that Stats.Add sums (translator/statsfields), and
+// Props/C25.v proves about those generated lists that Stats.Zero tests exactly the summed fields
 func vfC25CounterFields() []int {
 	var idx []int
 	t := reflect.TypeOf(zoekt.Stats{})
@@ -160,10 +162,40 @@ func TestVerifC25(t *testing.T) {
 	}
 	for ci := 0; ci < n; ci++ {
 		// ---- generate an event sequence
+		// Every second case is a ONE-HOT case: stats-only runs in which exactly one counter field is non-zero.
+		// The field and the sub-shape are not drawn at random but cycle with the case index (field = k mod #fields,
+		// sub-shape = (k div #fields) mod 4, first round = tail), so that every counter of zoekt.Stats gets a one-hot
+		// run that only Flush can deliver within the first 2*#fields cases, and all four sub-shapes within 8*#fields.
 		shape := r.Intn(7)
+		onehot, ohShape := -1, ""
+		if ci%2 == 1 && len(fields) > 0 {
+			k := ci / 2
+			onehot = k % len(fields)
+			ohShape = []string{"onehot-tail", "onehot-whole", "onehot-period", "onehot-then-file"}[(k/len(fields))%4]
+			shape = 7
+		}
 		nev := 1 + r.Intn(8)
 		var events []*zoekt.SearchResult
 		nextID := uint64(1)
+		// a run of k stats-only events in which only counter field `onehot` is non-zero (1 or a random value; with
+		// `gaps` some events of the run are all-zero). Duration / FlushReason (not looked at by Stats.Zero) stay random.
+		addOneHotRun := func(k int, gaps bool) {
+			minimal := k == 1 && r.Chance(60) // the smallest non-zero aggregate: a single event with value 1
+			for j := 0; j < k; j++ {
+				s := vfC25GenStats(r, fields, true)
+				if !(gaps && j > 0 && r.Chance(30)) {
+					val := int64(1)
+					if !minimal && r.Bool() {
+						val = int64(1 + r.Intn(1000))
+					}
+					reflect.ValueOf(&s).Elem().Field(fields[onehot]).SetInt(val)
+				}
+				events = append(events, &zoekt.SearchResult{
+					Stats:    s,
+					Progress: zoekt.Progress{Priority: vfC25GenPri(r), MaxPendingPriority: vfC25GenPri(r)},
+				})
+			}
+		}
 		addStatsRun := func(k int, zeroChance int) {
 			for j := 0; j < k; j++ {
 				events = append(events, &zoekt.SearchResult{
@@ -249,6 +281,47 @@ func TestVerifC25(t *testing.T) {
 			addStatsRun(r.Intn(3), 30)
 		case 4: // nothing but zero stats / empty
 			addStatsRun(r.Intn(150), 100)
+		case 7: // one-hot runs (see above)
+			// optional prefix that ends with a file event, which drains whatever the sampler has aggregated
+			prefix := func() {
+				if r.Chance(60) {
+					addStatsRun(r.Intn(3), 30)
+					addFiles(false)
+				}
+			}
+			switch ohShape {
+			case "onehot-tail": // the run ends the stream: only Flush can deliver it
+				prefix()
+				if r.Chance(30) {
+					addOneHotRun(1, false)
+				} else {
+					addOneHotRun(1+r.Intn(5), true)
+				}
+			case "onehot-whole": // the run is the whole stream
+				if r.Chance(25) {
+					addOneHotRun(1+r.Intn(250), true)
+				} else if r.Chance(40) {
+					addOneHotRun(1, false)
+				} else {
+					addOneHotRun(1+r.Intn(4), false)
+				}
+			case "onehot-period": // 99 / 100 / 101 one-hot events: the every-100th sampling point
+				prefix()
+				addOneHotRun(99+r.Intn(3), r.Bool())
+				if r.Chance(30) {
+					addFiles(false)
+				}
+			default: // "onehot-then-file": the run is merged into the next file event
+				prefix()
+				addOneHotRun(1+r.Intn(4), true)
+				events = append(events, &zoekt.SearchResult{
+					Files:    []zoekt.FileMatch{{FileName: strconv.FormatUint(nextID, 10), Repository: "r", Content: big[:r.Intn(200)]}},
+					Stats:    vfC25GenStats(r, fields, r.Chance(60)),
+					Progress: zoekt.Progress{Priority: vfC25GenPri(r), MaxPendingPriority: vfC25GenPri(r)},
+				})
+				nextID++
+				addStatsRun(r.Intn(3), 100)
+			}
 		default:
 			addStatsRun(r.Intn(3), 10)
 			addFiles(r.Chance(50))
@@ -304,7 +377,12 @@ func TestVerifC25(t *testing.T) {
 			for _, sn := range snaps {
 				evs = append(evs, map[string]any{"files": sn.ids, "sizes": sn.sizes, "counters": vfC25Counters(sn.stats, fields), "flush_reason": int(sn.stats.FlushReason), "priority": fmt.Sprint(sn.prio), "max_pending": fmt.Sprint(sn.maxp)})
 			}
-			return map[string]any{"events": evs, "counters": names, "messages": len(rec.msgs)}
+			rp := map[string]any{"events": evs, "counters": names, "messages": len(rec.msgs), "case_index": ci}
+			if onehot >= 0 {
+				rp["shape"] = ohShape
+				rp["onehot"] = names[onehot]
+			}
+			return rp
 		}
 		budgetFail := false
 		nBoundary := 0
@@ -365,6 +443,9 @@ func TestVerifC25(t *testing.T) {
 		}
 		coq := cTuple(cN(uint64(vfC25MaxMessageSize)), evl, ml)
 		class := []string{fmt.Sprintf("shape=%d", shape)}
+		if onehot >= 0 {
+			class = []string{"shape=" + ohShape, "onehot=" + names[onehot]}
+		}
 		if nStatsOnly >= 100 {
 			class = append(class, "stats-run>=100")
 		}
